@@ -10,7 +10,8 @@ import fsops
 NAMES = ["a", "b", "c"]
 ODD_NAMES = ["ab", "a.b", "{x}", " sp", "é"]
 DATA = [b"", b"x", b"hello", b"\x00\xff", b"0123456789"]
-MODES = ["r", "rb", "w", "wb", "a", "ab", "x", "xb", "r+", "w+", "a+", "x+", "r+b", "rw", "z", "", "rt", "wt"]
+MODES = ["r", "rb", "w", "wb", "a", "ab", "x", "xb", "r+", "w+", "a+", "x+", "r+b", "w+b", "a+b", "x+b",
+         "z", "", "rt", "wt", "b", "r+t"]
 
 
 class Gen(object):
